@@ -99,6 +99,12 @@ Section C12.
     (i < length sizes)%nat /\ (i < length normalize)%nat /\ (i < length defl)%nat /\ (i < length basis)%nat.
   Proof. exact grains_deflected_reads_in_bounds. Qed.
 
+  (** smooth composition of slabs and faults (the missing check was defect D36) *)
+  Theorem C12_smooth_reads : forall (comps : list N) (first second : list F) c i,
+    sig_ok (SigSmooth (length comps) (length first) (length second)) = true ->
+    find_idx comps c 0 = Some i -> (i < length first)%nat /\ (i < length second)%nat.
+  Proof. exact smooth_reads_in_bounds. Qed.
+
   (** uniform composition: walking compositions and fractions together is the lookup by position *)
   Theorem C12_fractions_lookup : forall (comps : list N) (fracs : list F) c,
     sig_ok (SigFractions (length comps) (length fracs)) = true ->
@@ -150,6 +156,7 @@ Print Assumptions C12_grains_uniform_reads.
 Print Assumptions C12_grains_random_reads.
 Print Assumptions C12_grains_deflected_reads.
 Print Assumptions C12_fractions_lookup.
+Print Assumptions C12_smooth_reads.
 Print Assumptions C12_spreading_reads.
 Print Assumptions C12_spreading_shape.
 Print Assumptions C12_section_table_rectangular.
